@@ -171,3 +171,19 @@ Print Assumptions C10_close_never_blocks.
 Print Assumptions C10_rclose_never_blocks.
 Print Assumptions C10_tau_variant.
 Print Assumptions C10_tau_runs_bounded.
+
+(* ---- the correspondence check's history matcher is certified for this model (Conc/PipeMatcher.v) ---- *)
+From Juniper Require Conc.GoLTSProofs Conc.PipeMatcher.
+
+Theorem C10_matcher_sound : forall n nt nc evs,
+    accepts_history n nt nc evs = true ->
+    exists ls s, run qstep (init n nt nc) ls = Some s /\ PipeMatcher.pipe_trace ls = evs.
+Proof. exact PipeMatcher.pipe_accepts_sound. Qed.
+
+Theorem C10_matcher_rejections_genuine : forall n nt nc evs,
+    PipeMatcher.pipe_converged n nt nc evs = true -> accepts_history n nt nc evs = false ->
+    forall ls s, run qstep (init n nt nc) ls = Some s -> PipeMatcher.pipe_trace ls <> evs.
+Proof. exact PipeMatcher.pipe_reject_genuine. Qed.
+
+Print Assumptions C10_matcher_sound.
+Print Assumptions C10_matcher_rejections_genuine.
